@@ -1615,11 +1615,80 @@ func headerValueOf(in ssa.Instruction) ssa.Value {
 // buildHandler returns.  The handler installed in the proxy's http.Server must be the handler builder's
 // result itself: a wrapper added afterwards (http.TimeoutHandler around it, say) sits outside the
 // request-context middleware, and the responses it produces on its own (a 503 on timeout) carry no
-// request/trace ID although the backend was given one.
+// request/trace ID although the backend was given one.  Every store to http.Server.Handler in
+// cmd/helios is traced back — through locals, φs and the parameters of helper constructors, to their
+// call sites — until it reaches the builder's result (the proxy's server: no call may lie in between)
+// or something else (a side server's own mux: not this rule's business).
 func (c *Ctx) servedHandlerIsBuiltHandler(bh *ssa.Function) {
 	p := c.P
 	rule := "context-middleware-outermost"
 	n := 0
+	// origin of a handler value: "built" (with the wrapping calls met on the way), or "other"
+	var origin func(v ssa.Value, fn *ssa.Function, seen map[ssa.Value]bool, d int) (built bool, wraps []string)
+	origin = func(v ssa.Value, fn *ssa.Function, seen map[ssa.Value]bool, d int) (bool, []string) {
+		if v == nil || seen[v] || d > 14 {
+			return false, nil
+		}
+		seen[v] = true
+		switch x := v.(type) {
+		case *ssa.Extract:
+			return origin(x.Tuple, fn, seen, d+1)
+		case *ssa.Call:
+			if bh != nil && x.Call.StaticCallee() == bh {
+				return true, nil
+			}
+			for _, a := range x.Call.Args {
+				if b, w := origin(a, fn, seen, d+1); b {
+					return true, append(w, p.InstrPos(x)+": "+CalleeName(x))
+				}
+			}
+			return false, nil
+		case *ssa.Phi:
+			for _, e := range x.Edges {
+				if b, w := origin(e, fn, seen, d+1); b {
+					return true, w
+				}
+			}
+		case *ssa.MakeInterface:
+			return origin(x.X, fn, seen, d+1)
+		case *ssa.ChangeInterface:
+			return origin(x.X, fn, seen, d+1)
+		case *ssa.UnOp:
+			if a, ok := x.X.(*ssa.Alloc); ok && a.Referrers() != nil {
+				for _, r := range *a.Referrers() {
+					if s2, ok := r.(*ssa.Store); ok && s2.Addr == ssa.Value(a) {
+						if b, w := origin(s2.Val, fn, seen, d+1); b {
+							return true, w
+						}
+					}
+				}
+			}
+		case *ssa.Parameter:
+			// a constructor helper: what its callers hand in
+			idx := -1
+			for i, prm := range fn.Params {
+				if prm == x {
+					idx = i
+				}
+			}
+			if idx < 0 {
+				return false, nil
+			}
+			for _, caller := range p.Funcs {
+				if !p.InScope(caller) {
+					continue
+				}
+				for _, ci := range callsIn(caller) {
+					if StaticFn(ci) == fn && idx < len(ci.Common().Args) {
+						if b, w := origin(ci.Common().Args[idx], caller, seen, d+1); b {
+							return true, w
+						}
+					}
+				}
+			}
+		}
+		return false, nil
+	}
 	for _, fn := range p.Funcs {
 		if !p.InScope(fn) {
 			continue
@@ -1633,87 +1702,20 @@ func (c *Ctx) servedHandlerIsBuiltHandler(bh *ssa.Function) {
 			if k != "http.Server.Handler" {
 				return
 			}
-			// only the server that serves a handler given from outside (the proxy's): the side servers
-			// build their own mux
-			var prm *ssa.Parameter
-			var wrapped string
-			seen := map[ssa.Value]bool{}
-			var walk func(v ssa.Value, d int)
-			walk = func(v ssa.Value, d int) {
-				if v == nil || seen[v] || d > 10 {
-					return
-				}
-				seen[v] = true
-				switch x := v.(type) {
-				case *ssa.Parameter:
-					if x.Type().String() == "net/http.Handler" {
-						prm = x
-					}
-				case *ssa.Phi:
-					for _, e := range x.Edges {
-						walk(e, d+1)
-					}
-				case *ssa.Call:
-					for _, a := range x.Call.Args {
-						if hp := handlerParamOf(a, map[ssa.Value]bool{}, 0); hp != nil {
-							prm = hp
-							if wrapped == "" {
-								wrapped = p.InstrPos(x) + ": " + CalleeName(x)
-							}
-						}
-					}
-				case *ssa.MakeInterface:
-					walk(x.X, d+1)
-				case *ssa.ChangeInterface:
-					walk(x.X, d+1)
-				case *ssa.UnOp:
-					if a, ok := x.X.(*ssa.Alloc); ok && a.Referrers() != nil {
-						for _, r := range *a.Referrers() {
-							if s2, ok := r.(*ssa.Store); ok && s2.Addr == ssa.Value(a) {
-								walk(s2.Val, d+1)
-							}
-						}
-					}
-				}
-			}
-			walk(st.Val, 0)
-			if prm == nil {
+			built, wraps := origin(st.Val, fn, map[ssa.Value]bool{}, 0)
+			if !built {
 				return
 			}
 			n++
 			construct := p.FuncKey(fn) + "/http.Server.Handler"
-			if wrapped != "" {
-				c.Fail(rule, construct, p.InstrPos(st), "the handler the listener serves is the built handler wrapped once more ("+wrapped+"): the wrapper sits outside the request-context middleware, so the responses it answers itself (a timeout's 503) carry no request/trace ID")
+			if len(wraps) > 0 {
+				c.Fail(rule, construct, p.InstrPos(st), "the handler the listener serves is the built handler wrapped once more ("+strings.Join(wraps, "; ")+"): the wrapper sits outside the request-context middleware, so the responses it answers itself (a timeout's 503) carry no request/trace ID")
 				return
 			}
-			// … and the caller hands in the handler builder's result
-			okArg := false
-			for _, caller := range p.Funcs {
-				for _, ci := range callsIn(caller) {
-					if StaticFn(ci) != fn {
-						continue
-					}
-					for i, a := range ci.Common().Args {
-						if i < len(fn.Params) && fn.Params[i] == prm {
-							d := p.Desc(a, nil)
-							if bh != nil && strings.Contains(d, bh.Name()+"(") {
-								okArg = true
-							} else {
-								c.Fail(rule, construct, p.InstrPos(ci), "the handler given to the listener is not the handler builder's result: "+d)
-								return
-							}
-						}
-					}
-				}
-			}
-			if okArg {
-				c.Pass(rule, construct, p.InstrPos(st), "the listener serves the handler builder's result itself")
-			} else {
-				c.Undecided(rule, construct, p.InstrPos(st), "no call site hands the built handler to the function that creates the server")
-			}
+			c.Pass(rule, construct, p.InstrPos(st), "the listener serves the handler builder's result itself")
 		})
 	}
-	c.Floor(rule, n, 1, "servers serving a handler built elsewhere")
+	c.Floor(rule, n, 1, "servers serving the built handler")
 }
 
 // handlerParamOf: the http.Handler parameter v derives from (through φs, conversions and calls), if any.
